@@ -50,6 +50,9 @@ def run(ck, fx, cg, tier):
     _agnostic(ck, fx, cg)
     _call_object_method(ck, fx)
     V.orientation_rules(ck, fx, cg, "R5.component")
+    # R5.spellings: the Feeny spellings of the built-in methods behave like their operator twins
+    from . import c09
+    c09.run(ck, fx, cg, tier, feeny=True, rule="R5.spellings")
 
 
 def _dispatch(ck, fx):
